@@ -636,8 +636,9 @@ func (r *runner) runEvent(ev *eventSpec, origins []*originRead, obs map[string]a
 		r.shape.WriteString("~")
 	}
 	if staleDiffers {
-		// observed: BuildRawEvent and Apply accepted an update whose origin is not the stored record
-		r.tags["F-C03-1:stale-origin-applied"] = true
+		// observed: BuildRawEvent and Apply accepted an update whose origin object is not the stored record
+		// (before e4efa7ee7 such an event broke the fold: F-C03-1)
+		r.tags["stale-or-foreign-origin-applied"] = true
 	}
 	newIDs := map[string]uint64{}
 	for _, ct := range cts {
